@@ -241,6 +241,16 @@ Theorem C03_forget_fixed : forall d,
 Proof. exact forget_fixed. Qed.
 Print Assumptions C03_forget_fixed.
 
+(* print_ast(node, indent=n) with an integer n (the default is 2): n spaces,
+   which [all_ws] covers -- the statement for the API's integer indents *)
+Theorem C03_roundtrip_int_indent : forall fl fl' s d n,
+  parse_document fl s = Ok d ->
+  no_location fl' = true -> allow_type_system fl' = true ->
+  (fragment_variables fl = true -> fragment_variables fl' = true) ->
+  parse_document fl' (print_ast (indent_of_int n) true d) = Ok (strip_doc (forget_member_descriptions d)).
+Proof. exact roundtrip_int_indent. Qed.
+Print Assumptions C03_roundtrip_int_indent.
+
 (* ... so the guard of C03_roundtrip_document_closed is exact: an accepted
    document round-trips (up to positions) if and only if it carries no member
    description.  Nothing else ever breaks the round trip, and every member
